@@ -1,4 +1,5 @@
 import Wayfind.Proofs.Reachable
+import Wayfind.Proofs.ParserEq
 import Wayfind.Proofs.Registry6
 import Wayfind.Proofs.ParseNonempty
 
@@ -7,9 +8,10 @@ Router half: a successful `insert t d` acts on the tree exactly like inserting e
 in order, each carrying the template text `t`, the data `d` and its own group-free text as `expanded` (a template
 with a single expansion stores `expanded = none`), followed by one `optimize`. With C01–C03 (search = documented walk
 over the stored routes) this is the observable equivalence of the property.
-Status: **partial** — that the model's expansions are the specification's (`Spec/Expand.lean`: independent keep/drop,
-inner only if outer, only a completely empty result becomes "/") is tied by the exhaustive parser stream of the check
-(oracle C04/C11 on every string up to the tier's length), not yet a Lean theorem (`expand_spec`). -/
+Expansion half (`C04_expansions_are_the_grammars`): the expansion texts the parser produces are exactly
+`topExpansions` of `Spec/Expand.lean` — every group independently kept (recursively) or dropped, an inner group only
+inside a kept outer one, kept variants first, and only a completely empty result replaced by "/" — in that order.
+Status: proved; the statements on live templates assume pairwise different expansions (see C01). -/
 
 theorem C04_insert_is_expansion_fold (r r' : Router) (t : Bytes) (d : Nat) (h : r.insert t d = .ok r') :
     ∃ ts, parseTemplates t = .ok ts ∧
@@ -49,3 +51,13 @@ theorem C04_insert_adds_the_expansions (env : Env) (r r' : Router) (L : List Liv
 /-- every accepted template has at least one expansion; the fuel of the expansion model never runs out -/
 theorem C04_at_least_one_expansion (t : Bytes) (ts : List (Bytes × List Part)) (hp : parseTemplates t = .ok ts) : ts ≠ [] :=
   parse_nonempty hp
+
+/-- the expansions of an accepted template are the grammar's keep-or-drop expansions, in order -/
+theorem C04_expansions_are_the_grammars (input : Bytes) (ts : List (Bytes × List Part)) (h : parseTemplates input = .ok ts) :
+    topExpansions input = some (ts.map (·.1)) :=
+  parse_expansions input ts h
+
+/-- keep-or-drop, spelled out on the item tree: a group contributes every expansion of its content, or nothing -/
+theorem C04_group_keep_or_drop (g rest : Items) :
+    Items.exps (.cons (.grp g) rest) = (Items.exps g ++ [[]]).flatMap (fun a => (Items.exps rest).map (a ++ ·)) := by
+  simp [Items.exps, Item.alts]
